@@ -70,8 +70,19 @@ def build_xlate():
 
 
 def lake_build(targets):
+    """ONE lake invocation for all targets: the first failing module fails all of them"""
     rc, out = run(['lake', 'build'] + targets, cwd=LEAN, timeout=3600)
     return rc == 0, out
+
+
+def lake_build_each(modules):
+    """one lake invocation PER module, so that a module that does not build (a property's `…Source` module after a
+    rewrite of a translated Go function) hides nothing about the others.  returns [(module, ok, log)]"""
+    res = []
+    for module in modules:
+        ok, out = lake_build([module])
+        res.append((module, ok, out))
+    return res
 
 
 def build_harness():
@@ -122,23 +133,39 @@ THEOREM_RE = re.compile(r'^\s*(?:private\s+|protected\s+)?theorem\s+([A-Za-z0-9_
 NAMESPACE_RE = re.compile(r'^\s*namespace\s+([A-Za-z0-9_\.]+)', re.M)
 
 
-def property_theorems(module):
-    """names of the theorems declared in the property module (fully qualified)"""
-    path = os.path.join(LEAN, *module.split('.')) + '.lean'
-    with open(path, encoding='utf-8') as f:
-        src = strip_comments(f.read())
-    ns = NAMESPACE_RE.search(src)
-    prefix = (ns.group(1) + '.') if ns else ''
-    return [prefix + m.group(1) for m in THEOREM_RE.finditer(src)]
+def _modules(modules):
+    return [modules] if isinstance(modules, str) else list(modules)
 
 
-def audit_axioms(pid, module):
-    """returns (ok, {theorem: [axioms]}, log)"""
-    thms = property_theorems(module)
+def property_theorems(modules):
+    """names of the theorems declared in the property module(s) (fully qualified; one module name or a list:
+    the main module of a property and its `…Source` module, in that order)"""
+    res = []
+    for module in _modules(modules):
+        path = os.path.join(LEAN, *module.split('.')) + '.lean'
+        with open(path, encoding='utf-8') as f:
+            src = strip_comments(f.read())
+        ns = NAMESPACE_RE.search(src)
+        prefix = (ns.group(1) + '.') if ns else ''
+        res.extend(prefix + m.group(1) for m in THEOREM_RE.finditer(src))
+    return res
+
+
+def first_error(log):
+    """' (first error at file:line)' for a lake log, or ''"""
+    m = re.search(r'error: (\S+\.lean):(\d+)', log)
+    return (' (first error at %s:%s)' % (m.group(1), m.group(2))) if m else ''
+
+
+def audit_axioms(pid, modules):
+    """`#print axioms` of every theorem of the given module(s) (those that built).  returns (ok, {theorem: [axioms]}, log)"""
+    modules = _modules(modules)
+    thms = property_theorems(modules)
     wd = workdir(pid)
     path = os.path.join(wd, 'Audit.lean')
     with open(path, 'w') as f:
-        f.write('import %s\n' % module)
+        for module in modules:
+            f.write('import %s\n' % module)
         for t in thms:
             f.write('#print axioms %s\n' % t)
     rc, out = run(['lake', 'env', 'lean', path], cwd=LEAN, timeout=1800)
@@ -162,6 +189,12 @@ def audit_axioms(pid, module):
     return ok, res, (out if not ok else '') + '\n'.join(bad)
 
 
-def leanchecker(module):
-    rc, out = run(['lake', 'env', 'leanchecker', module], cwd=LEAN, timeout=3600)
-    return rc == 0, out
+def leanchecker(modules):
+    """leanchecker on each module (its own invocation per module).  returns (ok, log of the failing ones)"""
+    ok, logs = True, []
+    for module in _modules(modules):
+        rc, out = run(['lake', 'env', 'leanchecker', module], cwd=LEAN, timeout=3600)
+        if rc != 0:
+            ok = False
+            logs.append('leanchecker %s:\n%s' % (module, out))
+    return ok, '\n'.join(logs)
